@@ -1,7 +1,7 @@
 (* C08 model runner.  One history per line:
      <id> H <meta> <autosave> <autogc> <N> <T> <node>*N <op>*   (meta = seed.tier.index, ignored)
-   node:  <m|b><d|-><s|-> ':' <succ,succ,..|-> ':' <subject|->
-   op:    P<k> | T<k>:<x>:<a|->:<t|d> | U<t> | V<k> | D<k> | G | S | R | C | I<k> | X<v|i|a|f><id>
+   node:  <m|b><d|-><s|-><x|-> ':' <succ,succ,..|-> ':' <subject|->
+   op:    P<k> | T<k>:<x>:<a|->:<t|d|D<j>> | U<t> | V<k> | D<k> | G | S | R | C | I<k> | X<v|i|a|f><id>
    Output: <id> followed by one token per op: the result, or for C the observation
    of the store and of the store reopened from its directory (printed three times:
    oci.New, NewFromFS, NewFromTar all read the same index.json / blobs). *)
@@ -9,6 +9,7 @@ let fix_f2 = true
 let fix_a = true
 let fix_f1 = true
 let fix_hold = true
+let fix_ref = true
 
 let ios = int_of_string
 let list_of_commas s = if s = "-" then [] else List.map ios (String.split_on_char ',' s)
@@ -20,6 +21,7 @@ let show_desc d =
 let show_result r = match r with
   | ROk -> "ok" | RAlreadyExists -> "exists" | RNotFound -> "notfound"
   | RInvalidReference -> "invalidref" | RHang -> "hang" | ROutOfFuel -> "fuel"
+  | RBadContent -> "badcontent"
 
 let () =
   iter_lines (fun l ->
@@ -28,7 +30,7 @@ let () =
       let n = ios ns and t = ios ts in
       let froms = list_of_commas fs in
       let strays = ref [] and all_strays = ref [] in
-      let ismf = Array.make n false and isd = Array.make n false and issk = Array.make n false
+      let ismf = Array.make n false and isd = Array.make n false and issk = Array.make n false and isbad = Array.make n false
       and sc = Array.make n [] and sj = Array.make n None in
       let rec nodes i rest =
         if i = n then rest else
@@ -36,7 +38,7 @@ let () =
         | tok :: rest' ->
           (match String.split_on_char ':' tok with
            | [fl; su; sb] ->
-             ismf.(i) <- fl.[0] = 'm'; isd.(i) <- fl.[1] = 'd'; issk.(i) <- fl.[2] = 's';
+             ismf.(i) <- fl.[0] = 'm'; isd.(i) <- fl.[1] = 'd'; issk.(i) <- fl.[2] = 's'; isbad.(i) <- (String.length fl > 3 && fl.[3] = 'x');
              sc.(i) <- List.map nat_of_int (list_of_commas su);
              sj.(i) <- (if sb = "-" then None else Some (nat_of_int (ios sb)))
            | _ -> failwith "node");
@@ -46,6 +48,7 @@ let () =
       let inr k = let i = int_of_nat k in if i < n then Some i else None in
       let mf k = match inr k with Some i -> ismf.(i) | None -> false in
       let dflt k = match inr k with Some i -> isd.(i) | None -> false in
+      let bad k = match inr k with Some i -> isbad.(i) | None -> false in
       let sk k = match inr k with Some i -> issk.(i) | None -> false in
       let succs k = match inr k with Some i -> sc.(i) | None -> [] in
       let subj k = match inr k with Some i -> sj.(i) | None -> None in
@@ -68,7 +71,7 @@ let () =
         let d = rlists 6 10 in let e = rpairs 8 in
         { o_save1 = a; o_save2 = b; o_gc1 = c; o_gc2 = d; o_del = e } in
       let do_op o =
-        let (s', r) = step nn mf succs subj sk fix_f2 fix_a fix_f1 fix_hold cfg !st (o, orders ()) in
+        let (s', r) = step nn mf succs subj sk bad fix_f2 fix_a fix_f1 fix_hold fix_ref cfg !st (o, orders ()) in
         st := s'; Buffer.add_string buf (" " ^ show_result r) in
       let obs s =
         let b = Buffer.create 128 in
@@ -102,7 +105,9 @@ let () =
            | [k; x; a; r] ->
              let d = { d_node = nat_of_int (ios k); d_extra = nat_of_int (ios x);
                        d_refann = (if a = "-" then None else Some (RTag (nat_of_int (ios a)))) } in
-             let rf = if r = "d" then RDig d.d_node else RTag (nat_of_int (ios r)) in
+             let rf = if r = "d" then RDig d.d_node
+                      else if r.[0] = 'D' then RDig (nat_of_int (ios (String.sub r 1 (String.length r - 1))))
+                      else RTag (nat_of_int (ios r)) in
              do_op (OTag (d, rf))
            | _ -> failwith "tag op")
         | 'U' -> do_op (OUntag (RTag (nat_of_int (ios arg))))
